@@ -1161,6 +1161,7 @@ fn c10_hist(input: &Input, obs: &mut Obs) -> Result<(), Fail> {
                     // more than 253 in all now and then); the last message may be withheld
                     let live: Vec<usize> = accepted.iter().copied().filter(|c| alive(&w, *c) && w.clients[*c].staged.is_empty() && w.clients[*c].unsent.is_empty() && !w.clients[*c].dirty && !w.clients[*c].lazy).collect();
                     if !live.is_empty() {
+                        'fdop: {
                         let c = live[s.below(live.len())];
                         let mut spec = spec_from(&mut s, false, false);
                         spec.body = spec.body.min(40);
@@ -1169,6 +1170,29 @@ fn c10_hist(input: &Input, obs: &mut Obs) -> Result<(), Fail> {
                         let npieces = s.range(2, 3).min(bytes.len());
                         let mut cuts: Vec<usize> = (1..npieces).map(|i| i * bytes.len() / npieces).collect();
                         cuts.push(bytes.len());
+                        // variant: the request line is not acceptable (method POST); every descriptor rides
+                        // on the first message, which holds that whole line. The request is rejected and
+                        // nothing of it may stay behind, its descriptors included
+                        if s.chance(50) {
+                            let mut bad = b"POST".to_vec();
+                            let sp = bytes.iter().position(|b| *b == b' ').unwrap_or(0);
+                            bad.extend_from_slice(&bytes[sp..]);
+                            let line_end = bad.windows(2).position(|x| x == b"\r\n").map(|i| i + 2).unwrap_or(bad.len());
+                            let first = if s.chance(128) { line_end } else { bad.len() };
+                            let nf = [1usize, 5, 100, 253][s.weighted(&[6, 4, 1, 1])];
+                            w.clients[c].dirty = true;
+                            if w.send_with_fds(c, &bad[..first], nf) {
+                                if first < bad.len() {
+                                    if s.chance(128) {
+                                        w.settle(100, true);
+                                    }
+                                    w.send_raw(c, &bad[first..]);
+                                }
+                                obs.label("descriptors_with_a_rejected_request_line");
+                            }
+                            w.settle(200, true);
+                            break 'fdop;
+                        }
                         let withhold = s.chance(50);
                         let mut from = 0;
                         let mut sent_fds = 0usize;
@@ -1201,6 +1225,7 @@ fn c10_hist(input: &Input, obs: &mut Obs) -> Result<(), Fail> {
                         }
                         if withhold {
                             obs.label("descriptors_pending_with_incomplete_request");
+                        }
                         }
                     }
                 }
@@ -2814,8 +2839,25 @@ fn c11_server(input: &Input, obs: &mut Obs) -> Result<(), Fail> {
             // malformed chunk, sent alone, settled: the client reads the 400
             let n400_before = audit_client(&w, c)?.n400;
             w.clients[c].dirty = true;
-            let kind = s.below(6);
+            let kind = s.below(7);
             match kind {
+                6 => {
+                    // a long header line without a colon (or a bad Content-Length) made of multi-byte
+                    // characters, at every alignment: the 400 that echoes it is still a 400
+                    let mut g = b"GET / HTTP/1.1\r\n".to_vec();
+                    if s.chance(100) {
+                        g.extend_from_slice(b"Content-Length: ");
+                    }
+                    g.extend(std::iter::repeat(b'a').take(s.below(4)));
+                    let ch = ["\u{e9}", "\u{4e2d}", "\u{1f600}"][s.below(3)];
+                    let n = s.range(60, 900) / ch.len();
+                    for _ in 0..n {
+                        g.extend_from_slice(ch.as_bytes());
+                    }
+                    g.extend_from_slice(b"\r\n\r\n");
+                    w.send_raw(c, &g);
+                    obs.label("long_multibyte_header_line");
+                }
                 5 => {
                     // one burst: a malformed request padded to fill exactly one (or two) of the
                     // server's 1024-byte reads, and well-formed requests right behind it. The reads
@@ -2947,13 +2989,19 @@ fn c11_server(input: &Input, obs: &mut Obs) -> Result<(), Fail> {
                         return Err(("rejected-yielded".into(), format!("request r{} was answered with 400 and later yielded to the application", rj)));
                     }
                 }
+                let got_before = audit_client(&w, c)?.app_received;
+                let mut answered = false;
                 if let Some(kk) = w.outstanding.iter().position(|o| o.c == c && o.j == j) {
-                    w.respond(kk, 200, s.range(0, 100));
+                    answered = w.respond(kk, 200, s.range(0, 100));
                 }
                 w.settle(200, true);
                 let a2 = audit_client(&w, c)?;
                 if a2.n400 != a.n400 {
                     return Err(("later-request-fails".into(), format!("the well-formed request r{} was answered with a 400", j)));
+                }
+                // the application's answer to it arrives, whatever else of this client is still unanswered
+                if answered && a2.app_received != got_before + 1 {
+                    return Err(("later-response-lost".into(), format!("the application answered r{} (sent after a rejected request); the client received {} application responses where {} were expected", j, a2.app_received, got_before + 1)));
                 }
                 after += 1;
             }
